@@ -72,7 +72,7 @@ func checkC15(r *Run) propMeta {
 	// the component graph is built with the CSR builder: its offsets must be complete (shared with C14-R6)
 	checkPrefixArraysWrittenEveryIteration(r, cp, "C15-R5-component-graph-offsets")
 	checkPartialFlagMonotone(r, r.MustPkg("algo"))
-	checkNodeIDsNotNarrowed(r, r.MustPkg("algo"), cp)
+	checkNodeIDsNotNarrowed(r, "C15-R7-node-ids-not-narrowed", r.MustPkg("algo"), cp)
 	r.Floor("C15-R1-cached-set-readonly", 8)
 
 	// ---- R4 roles
